@@ -264,7 +264,9 @@ fn run_worker(args: &[String]) {
                     emit(program_stages(&id, &program, lp_limit), json!({"id": id, "kind": "prog", "sierra": catch_unwind(AssertUnwindSafe(|| program.to_string())).unwrap_or_default()}));
                     let n_mut = job.get("mutants").and_then(|x| x.as_u64()).unwrap_or(0) as usize;
                     let multi = job.get("multi").and_then(|x| x.as_u64()).unwrap_or(0) as usize;
-                    let plans = sierra_mutate::plans(&program, n_mut + 2 * multi, &mut rng);
+                    let mut plans = if n_mut > 0 { sierra_mutate::boundary_plans(&program, job.get("boundary").and_then(|x| x.as_u64()).unwrap_or(400) as usize, &mut rng) } else { vec![] };
+                    let n_mut = n_mut + plans.len();
+                    plans.extend(sierra_mutate::plans(&program, n_mut - plans.len() + 2 * multi, &mut rng));
                     let mut k = 0;
                     let mut i = 0;
                     while i < plans.len() {
